@@ -231,24 +231,28 @@ impl<'a> RamView<'a> {
         self.snap.new_clusters.iter().any(|(c, _)| *c == cluster)
     }
 
-    fn slice_bytes(&self, slices: &'a [VerifSlice], off: u64, len: usize) -> Vec<u8> {
+    fn slice_bytes(&self, slices: &'a [VerifSlice], off: u64, len: usize) -> std::borrow::Cow<'a, [u8]> {
+        use std::borrow::Cow;
         for s in slices {
             if s.offset == Some(off) {
                 if let Some(b) = &s.bytes {
-                    return b.clone();
+                    return Cow::Borrowed(&b[..]);
                 }
             }
         }
         if self.is_new(off >> self.cb) {
-            return vec![0u8; len];
+            return Cow::Owned(vec![0u8; len]);
+        }
+        let o = off as usize;
+        if o + len <= self.file.len() {
+            return Cow::Borrowed(&self.file[o..o + len]);
         }
         let mut v = vec![0u8; len];
-        let o = off as usize;
         if o < self.file.len() {
-            let n = std::cmp::min(len, self.file.len() - o);
+            let n = self.file.len() - o;
             v[..n].copy_from_slice(&self.file[o..o + n]);
         }
-        v
+        Cow::Owned(v)
     }
 
     /// raw L2 entry of guest cluster `g`
